@@ -209,6 +209,14 @@ theorem C15_scan_sound {lsm : Lsm} (h : LsmInv lsm) {f : VFile} {now : Nat} {k :
   rw [hpr.dead, hvis, hself]
   simp [hpr.ver, hp, hfin, hloc]
 
+/-- a scan parked after `k` records and resumed with the LSM unchanged selects what the one-piece
+    scan selects (`GcDb.gcBeginAt` + `GcDb.gcCont` vs `GcDb.gcBegin`) -/
+theorem C15_scan_split (lsm : Lsm) (now : Nat) (f : VFile) (k : Nat) :
+    gcScanPart lsm now f.fid ((zipIdx f.recs).take k) ++ gcScanPart lsm now f.fid ((zipIdx f.recs).drop k) =
+      gcScan lsm now f := by
+  unfold gcScanPart gcScan
+  rw [← List.filterMap_append, List.take_append_drop]
+
 /-! ## write-back of everything scanned, then unlinking -/
 
 theorem putAll_cons (s : Lsm) (w : Ent) (W : List Ent) : s.putAll (w :: W) = (s.putEnt w).putAll W := rfl
